@@ -11,9 +11,18 @@ def _gen(case):
     warnings.simplefilter('ignore')
     api = callrun.carrier_api()
     api = copy.deepcopy(api)
+    pkg = callrun.PKG
+    if case.get('layout') == 'sub':
+        # every service (and message) of the API package moves into the proto sub-package <pkg>.services
+        import json
+        pkg = callrun.PKG + '.services'
+        api = json.loads(json.dumps(api).replace(callrun.PKG, pkg))
+        # ... next to a second sub-package, so that the API package itself (acme.call.v1) holds no service at all
+        api['files'].append(dict(name='acme/call/v1/resources/extra.proto', package=callrun.PKG + '.resources',
+                                 messages=[dict(name='Extra', fields=[dict(name='name')])]))
     ms = []
     for e in case['settings']:
-        ent = {'selector': f"{callrun.PKG}.Things.{e['selector']}"}
+        ent = {'selector': f"{pkg}.Things.{e['selector']}"}
         if e['fields']:
             ent['auto_populated_fields'] = list(e['fields'])
         ms.append(ent)
@@ -40,7 +49,7 @@ def run(chk):
     with ProcessPoolExecutor(14) as ex:
         outs = list(ex.map(_gen, cases, chunksize=4))
     for c, (got, msg) in zip(cases, outs):
-        k = 'settings:' + ';'.join(f"{e['selector']}[{','.join(sorted(e['fields']))}]" for e in c['settings'])
+        k = 'settings:' + ('' if c.get('layout', 'root') == 'root' else c['layout'] + ':') + ';'.join(f"{e['selector']}[{','.join(sorted(e['fields']))}]" for e in c['settings'])
         chk.case(k, nontrivial=len(c['settings']) > 0)
         if got != c['expect']:
             chk.violation(k, f"generation outcome {got} ({msg}) but the specification predicts {c['expect']}", dict(case=c, got=got, msg=msg))
